@@ -658,6 +658,49 @@ func c21StructBaseline(c *ev.Collector, t *testing.T, openssl, dir string, pool 
 			}
 		}
 	}
+	// Field-value sweep over the three iteration-count fields (MAC, certificate PBE, key PBE): small values, the
+	// DER INTEGER length boundaries (127/128, 255/256, 32767/32768, 65535/65536) and the common defaults must decode;
+	// 2^20 is the package's documented maximum (thorough), 2^20+1 is refused.
+	{
+		certDER, _ := c21MakeCert(ec.priv, "c21 structured", 94)
+		vals := []int{1, 2, 3, 4, 5, 6, 7, 8, 9, 10, 16, 100, 127, 128, 129, 255, 256, 257, 1000, 1024, 2047, 2048, 2049, 4096, 10000, 32767, 32768, 65535, 65536}
+		if ev.Thorough() {
+			vals = append(vals, 100000, 1<<20-1, 1<<20)
+		}
+		for _, it := range vals {
+			for field := 0; field < 3; field++ {
+				i++
+				if !ev.Mine(i) {
+					continue
+				}
+				c21Mem = i
+				k := p12DefaultKnobs("c21.iter", i)
+				if i%2 == 0 {
+					k.Cert.Alg, k.Key.Alg = "3des", "rc2-40"
+				}
+				switch field {
+				case 0:
+					k.MacIter = it
+				case 1:
+					k.Cert.Iter = it
+				default:
+					k.Key.Iter = it
+				}
+				pw := c21StructPasswords[i%len(c21StructPasswords)]
+				pfx, err := p12Build(k, ec.priv, certDER, pw)
+				if err != nil {
+					inconclusiveT(c, t, "p12Build: %v", err)
+				}
+				e := &c21Export{password: pw, key: ec, certDER: certDER, pfx: pfx, friendly: "verif key", describe: "harness-made PFX " + p12Describe(k)}
+				if gerr := c21CheckGood(e); gerr != nil {
+					what := fmt.Sprintf("%v [iteration count %d in the %s field; %s; pfx %x]", gerr, it, []string{"MAC", "certificate PBE", "key PBE"}[field], e.describe, pfx)
+					c.Violation(what, "")
+					t.Fatalf("VF-VIOLATION: property=C21 %s", what)
+				}
+				c.Case(true, fmt.Sprintf("iterfield|%d|%d", field, it), "field:iterations-"+[]string{"mac", "cert", "key"}[field], fmt.Sprintf("field:iterations=%d", it))
+			}
+		}
+	}
 	// once per shard: OpenSSL must read a harness-made file (keeps the builder honest even while everything passes)
 	if openssl != "" {
 		certDER, _ := c21MakeCert(ec.priv, "c21 structured", 98)
